@@ -530,7 +530,29 @@ func init() {
 	natives["encoding/hex.DecodeString"] = func(in *Interp, fn *ssa.Function, args []Value) Value {
 		s, ok := in.cStr(args[0])
 		if !ok {
-			panic(in.unsupported("hex.DecodeString: symbolic"))
+			sv := args[0].(*StrVal)
+			if sv.Opaque {
+				panic(in.unsupported("hex.DecodeString: opaque string"))
+			}
+			st := in.St
+			bs := in.strBytes(sv)
+			nib := func(c *smt.Term) (*smt.Term, *smt.Term) { // value (8 bit), valid
+				isD := st.And(st.Cmp(smt.OpBvUle, st.BV('0', 8), c), st.Cmp(smt.OpBvUle, c, st.BV('9', 8)))
+				isL := st.And(st.Cmp(smt.OpBvUle, st.BV('a', 8), c), st.Cmp(smt.OpBvUle, c, st.BV('f', 8)))
+				isU := st.And(st.Cmp(smt.OpBvUle, st.BV('A', 8), c), st.Cmp(smt.OpBvUle, c, st.BV('F', 8)))
+				v := st.Ite(isD, st.Bin(smt.OpBvSub, c, st.BV('0', 8)), st.Ite(isL, st.Bin(smt.OpBvSub, c, st.BV('a'-10, 8)), st.Bin(smt.OpBvSub, c, st.BV('A'-10, 8))))
+				return v, st.Or(isD, st.Or(isL, isU))
+			}
+			valid := st.Bool(len(bs)%2 == 0)
+			var e []Value
+			for i := 0; i+1 < len(bs); i += 2 {
+				h, hv := nib(bs[i])
+				l, lv := nib(bs[i+1])
+				valid = st.And(valid, st.And(hv, lv))
+				e = append(e, st.Bin(smt.OpBvOr, st.Bin(smt.OpBvShl, h, st.BV(4, 8)), l))
+			}
+			good := in.mkSlice(e)
+			return in.tuple(in.merge(valid, good, &SliceVal{}), in.merge(valid, &IfaceVal{}, in.MkError("encoding/hex: invalid")))
 		}
 		b, err := hex.DecodeString(s)
 		var e []Value
